@@ -181,6 +181,31 @@ def make_numerify_contract(opaque_prefix):
     return numerify_contract
 
 
+def make_raising_numerify_contract(opaque_prefix):
+    """contract of checksum.numerify for call sites that may pass unvalidated text (from_bban computes the digits
+    BEFORE validating): all characters in [0-9A-Z] and non-empty -> Num(value); otherwise ValueError, as str.index
+    does (assumed: `_alphabet.index(c)` raises ValueError exactly for characters outside the alphabet)"""
+    inner = make_numerify_contract(opaque_prefix)
+
+    def numerify_contract(I, value):
+        v = payload(value)
+        if isinstance(v, SDecStr):
+            v = I.materialize(v)
+        if isinstance(v, SFn):
+            n = I.pin_length(v)
+            if n is None:
+                raise Unsupported("numerify of a string of unpinned length")
+            v = I.vector_of(v, n)
+        if isinstance(v, str):
+            return inner(I, value)
+        s = lift_str(v)
+        ok = z3.And(z3.BoolVal(len(s) > 0), *[z_alnum(c) for c in s.chars])
+        if I.branch(SBool(ok)):
+            return inner(I, SStr(list(s.chars)))
+        raise Raised(ValueError("substring not found"))
+    return numerify_contract
+
+
 def num_term(I, chars, opaque_prefix):
     """Num(chars) as a term.  opaque_prefix = k > 0: the first k characters stay under NumU, the rest is unfolded;
     'auto': exact decimal polynomial when every character is provably a digit, else NumU on the whole string"""
